@@ -236,6 +236,8 @@ EXTRA = {
  "C19": " The result of every point operation (copy, P*k, k*P, negation, addition, point_at_infinity) on 4 operands incl. the neutral element "
         "on all 9 curves is a new object: changing it in place never reaches the operand.",
  "C18": " sample() from populations with equal elements (1 == 1.0 == True): the selection is uniform over positions.",
+ "C11": " Caller-supplied output buffers around the counter limit (9 positions x 10 request sizes, 1-byte counter, both ciphers, layouts "
+        "and endiannesses): the buffer never holds key stream past the repetition point.",
  "C12": " derive() after a refused 128th S2V component equals S2V of the 127 accepted ones.",
 }
 for _k, _v in EXTRA.items():
